@@ -60,6 +60,10 @@ Theorem C19_len_spec : forall a, collection_or_ptr a ->
             (go_length a = Some n \/ exists x, a = LPtr x /\ go_length x = Some n).
 Proof. exact len_spec. Qed.
 
+(* len is total: no argument makes it panic *)
+Theorem C19_len_total : forall a, exists n, len_model a = LenOk n.
+Proof. exact len_total. Qed.
+
 Example C19_example_range : ryield 64 (range_ 3 6) = ([3; 4; 5; 6], true).
 Proof. vm_compute. reflexivity. Qed.
 Example C19_example_maxint : ryield 10 (range_ (maxint - 2) maxint) = ([maxint - 2; maxint - 1; maxint], true).
@@ -75,3 +79,4 @@ Print Assumptions C19_ranger_terminates.
 Print Assumptions C19_groupBy_partition.
 Print Assumptions C19_groupBy_err.
 Print Assumptions C19_len_spec.
+Print Assumptions C19_len_total.
